@@ -413,8 +413,8 @@ def _Report(klass, problems, limit=3):
   for sig, payload in problems:
     if klass.Match(sig):
       continue
-    group = json.dumps({k: sig[k] for k in sorted(sig) if k != 'msg'},
-                       sort_keys=True)
+    group = json.dumps({k: sig[k] for k in sorted(sig)
+                        if k not in ('msg', 'detail')}, sort_keys=True)
     seen[group] += 1
     if seen[group] > limit:
       continue
